@@ -298,9 +298,6 @@ func (m *Mux) encError(w http.ResponseWriter, r *http.Request, err error) {
 	if isTwirp := r.Header.Get("Twirp-Version") != ""; isTwirp {
 		accept := "application/json"
 
-		w.Header().Set("Content-Type", accept)
-		w.WriteHeader(HTTPStatusCode(s.Code()))
-
 		codeStr := strings.ToLower(code.Code_name[int32(s.Code())])
 
 		terr := &twirpError{
@@ -309,8 +306,11 @@ func (m *Mux) encError(w http.ResponseWriter, r *http.Request, err error) {
 		}
 		b, err := json.Marshal(terr)
 		if err != nil {
-			panic(err) // ...
+			encErrorPlain(w, s)
+			return
 		}
+		w.Header().Set("Content-Type", accept)
+		w.WriteHeader(HTTPStatusCode(s.Code()))
 		w.Write(b) //nolint
 		return
 
@@ -319,14 +319,22 @@ func (m *Mux) encError(w http.ResponseWriter, r *http.Request, err error) {
 	accept := negotiateContentType(r.Header, m.opts.contentTypeOffers, "application/json")
 	c := m.opts.codecs[accept]
 
-	w.Header().Set("Content-Type", accept)
-	w.WriteHeader(HTTPStatusCode(s.Code()))
-
 	b, err := c.Marshal(s.Proto())
 	if err != nil {
-		panic(err) // ...
+		// e.g. a status message that is not valid UTF-8, or a codec that
+		// cannot marshal messages.
+		encErrorPlain(w, s)
+		return
 	}
+	w.Header().Set("Content-Type", accept)
+	w.WriteHeader(HTTPStatusCode(s.Code()))
 	w.Write(b) //nolint
+}
+
+// encErrorPlain answers with the mapped status code and the status message as
+// plain text, for statuses that cannot be encoded as a google.rpc.Status body.
+func encErrorPlain(w http.ResponseWriter, s *status.Status) {
+	http.Error(w, strings.ToValidUTF8(s.Message(), "\uFFFD"), HTTPStatusCode(s.Code()))
 }
 
 func (m *Mux) serveHTTP(w http.ResponseWriter, r *http.Request) error {
